@@ -42,6 +42,13 @@ from .values import (
 )
 
 
+class Poison:
+    """a local whose pre-loop value was dropped when paths were merged at a loop head"""
+
+    def __init__(self, name: str):
+        self.name = name
+
+
 _MUTATORS = frozenset(
     "add append clear discard extend insert pop popitem remove reverse setdefault sort update "
     "appendleft popleft extendleft rotate __setitem__ __delitem__ move_to_end".split()
@@ -150,6 +157,7 @@ class Engine:
         self.inline: set[str] = set()
         self.constructors: dict[str, Callable[..., Any]] = {}
         self.feas_cache: dict[tuple, bool] = {}
+        self.merged_heads: dict[tuple, tuple] = {}
         self.feas_timeout_ms = 2000
         self.axiom_hooks: list[Callable[["Run", z3.ExprRef], None]] = []
 
@@ -211,6 +219,14 @@ class Run:
         c = self.script[i] if i < len(self.script) else 0
         self.decisions.append((c, arity, label))
         return c
+
+    def assume_def(self, f: Any) -> None:
+        """a definitional fact (unfolding of a Spec function): a hypothesis of every later obligation, but kept out of the
+        path-feasibility solver (string-heavy unfoldings make every feasibility query slow).  A path that is infeasible
+        only because of such facts is explored anyway; its exit cover is then unsat (a *dead path*, see report.py)."""
+        if isinstance(f, bool):
+            return
+        self.pc.append(f)
 
     def assume(self, f: Any, why: str | None = None) -> None:
         if isinstance(f, bool):
@@ -314,6 +330,8 @@ class Run:
             v = fr.env[name]
             if v is _UNBOUND:
                 raise PyExc("UnboundLocalError", name)
+            if isinstance(v, Poison):
+                raise OutOfDialect(f"local {name} is read after a merged loop head (name it in Loop.keep)", node)
             return v
         mi = self.program.modules.get(fr.module)
         if getattr(self.spec, "template_names", False):
@@ -909,7 +927,9 @@ class Run:
         args = []
         for a in n.args:
             if isinstance(a, ast.Starred):
-                raise OutOfDialect("star-args", n)
+                # f(x, *ys): handed on as a marker; only constructor contracts (spec.constructors) accept it
+                args.append(("$star", self.eval(a.value)))
+                continue
             args.append(self.eval(a))
         kwargs = {}
         for k in n.keywords:
@@ -919,6 +939,8 @@ class Run:
         return self.call(f, args, kwargs, n)
 
     def call(self, f: Any, args: list[Any], kwargs: dict[str, Any], n: ast.AST | None) -> Any:  # noqa: PLR0911
+        if not isinstance(f, ClassV) and any(isinstance(a, tuple) and a and a[0] == "$star" for a in args):
+            raise OutOfDialect("star-args", n)
         if isinstance(f, LocalFn):
             h = getattr(self.spec, "call_local", None)
             if h is not None:
@@ -1001,6 +1023,8 @@ class Run:
         c = c or self.engine.constructors.get(qual)
         if c is not None:
             return c(self, args, kwargs)
+        if any(isinstance(a, tuple) and a and a[0] == "$star" for a in args):
+            raise OutOfDialect("star-args", n)
         ci = self.program.classes.get(qual)
         if ci is None:
             raise OutOfDialect(f"constructor of {qual}", n)
@@ -1661,6 +1685,28 @@ class Run:
             self.assume(f)
         for nm, f in lspec.inv(self, g0):
             self.oblige(f"loop{ordinal}.init.{nm}", f)
+        if getattr(lspec, "merge", False) and len(self.frames) == 1:
+            # every path into this loop has just proved the invariant; what follows the head depends only on the
+            # invariant, the function's preconditions and the locals the loop spec names, so it is explored ONCE:
+            # later arrivals stop here, the first one goes on with the pre-loop path condition dropped and every other
+            # local poisoned (a read of one is out of dialect, never silently wrong).
+            mkey = (self.fn_label, key)
+            here = tuple(c for c, _, _ in self.decisions)
+            rep = self.engine.merged_heads.setdefault(mkey, here)  # the representative: the first path to arrive
+            if rep != here:
+                raise PathEnd
+            base = getattr(self, "pc_base", None)
+            if base is None:
+                raise OutOfDialect("merged loop head without a recorded precondition boundary", st)
+            del self.pc[base:]
+            self.solver = z3.Solver()
+            self.solver.set("timeout", self.engine.feas_timeout_ms)
+            for f in self.pc:
+                self.solver.add(f)
+            keep = set(getattr(lspec, "keep", ())) | {"self"} | _assigned_in(st.body) | ({_t for _t in _target_names(st.target)} if is_for else set())
+            for name in list(fr.env):
+                if name not in keep and not name.startswith("$"):
+                    fr.env[name] = Poison(name)
         # 2. havoc
         birth = self.heap.next
         assigned = _assigned_in(st.body) | ({_t for _t in _target_names(st.target)} if is_for else set())
